@@ -343,8 +343,7 @@ def main():
             print(f"HARNESS-ERROR {out[1]}")
             return 2
         known = {e["signature"]: e for e in load_known(pid) if e.get("status") == "open"}
-        rec = json.loads(p.read_text())
-        if out[1] in known and known[out[1]].get("subcheck") == rec["subcheck"]:
+        if out[1] in known:
             print(f"KNOWN-FINDING: property={pid} {known[out[1]]['text']}")
             print(f"  signature={out[1]}\n  {out[2]}")
             return 0
